@@ -223,6 +223,8 @@ type FnSpec struct {
 	Exts   []Ext
 	NoRecv bool // the receiver is not used by the translation (omit it)
 	Mutates bool // the receiver is updated through modelled operations the syntactic pre-pass does not see
+	Types   map[string]T // per-function overrides of the opaque type table
+	MutParams []string   // parameters that modelled operations update (pointer parameters)
 	// Prologue: Lean do-statements at the start of the body; RetExtra/RetExtraT: extra values (Lean terms and
 	// types) returned in front of the Go results (e.g. the threaded abstract state of modelled callees)
 	Prologue  []string
@@ -448,6 +450,12 @@ func (t *tr) typeOf(e ast.Expr) types.Type {
 func (g *gen) goT(ty types.Type) T {
 	if ty == nil {
 		return tBad
+	}
+	if g.curTypes != nil {
+		key := types.TypeString(ty, func(p *types.Package) string { return p.Name() })
+		if o, ok := g.curTypes[key]; ok {
+			return o
+		}
 	}
 	switch u := ty.(type) {
 	case *types.Basic:
@@ -682,6 +690,13 @@ func (t *tr) call(c *ast.CallExpr, stmt bool) ([]string, []T) {
 				return []string{a}, []T{tStr}
 			}
 			t.fail(c, "string(%s)", at.Kind)
+		case "append":
+			if len(c.Args) != 2 || c.Ellipsis.IsValid() {
+				t.fail(c, "append with other than one element")
+			}
+			a, at := t.expr(c.Args[0])
+			b, _ := t.expr(c.Args[1])
+			return []string{"(" + a + " ++ [" + b + "])"}, []T{at}
 		case "delete":
 			ext := t.findExt("delete(" + calleeText(t.p, c.Args[0], t.recvName) + ")")
 			if ext == nil || ext.Effect == "" {
@@ -737,7 +752,7 @@ func (t *tr) call(c *ast.CallExpr, stmt bool) ([]string, []T) {
 		}
 		if ext.Value != "" {
 			v := strings.ReplaceAll(subst(ext.Value, recv, args), "%t", tn)
-			if ext.MayPanic {
+			if ext.MayPanic && len(ext.Stmts) == 0 {
 				if !t.mayPanic {
 					t.fail(c, "panicking external in a non-panicking function")
 				}
@@ -967,6 +982,16 @@ func (t *tr) expr(e ast.Expr) (string, T) {
 		}
 		t.fail(x, "type assertion %s", t.p.text(x))
 	case *ast.CompositeLit:
+		if tv, ok := t.p.info.Types[x]; ok {
+			if _, isSlice := tv.Type.Underlying().(*types.Slice); isSlice {
+				var els []string
+				for _, el := range x.Elts {
+					v, _ := t.expr(el)
+					els = append(els, v)
+				}
+				return "[" + strings.Join(els, ", ") + "]", t.g.goT(tv.Type)
+			}
+		}
 		var parts []string
 		for _, el := range x.Elts {
 			if _, kv := el.(*ast.KeyValueExpr); kv {
@@ -1156,11 +1181,16 @@ func (t *tr) assignTo(lhs ast.Expr, val string) {
 		t.fail(l, "assignment to unknown %s", l.Name)
 	case *ast.IndexExpr:
 		ext := t.findExt(calleeText(t.p, l.X, t.recvName) + "[]=")
-		if ext == nil || ext.Effect == "" {
+		if ext == nil || (ext.Effect == "" && len(ext.Stmts) == 0) {
 			t.fail(l, "assignment to an element of %s", t.p.text(l.X))
 		}
 		k, _ := t.expr(l.Index)
-		t.emit("%s := %s", t.recvLean(), subst(ext.Effect, t.recvLean(), []string{k, val}))
+		for _, st := range ext.Stmts {
+			t.emit("%s", subst(st, t.recvLean(), []string{k, val}))
+		}
+		if ext.Effect != "" {
+			t.emit("%s := %s", t.recvLean(), subst(ext.Effect, t.recvLean(), []string{k, val}))
+		}
 		return
 	case *ast.SelectorExpr:
 		if ext, h := t.wildExt(l, "="); ext != nil && ext.Effect != "" {
@@ -1736,6 +1766,7 @@ type gen struct {
 	fns        []*fnInfo
 	fnByKey    map[string]*fnInfo // pkg|recv|func
 	globalExts []Ext
+	curTypes   map[string]T
 	out        bytes.Buffer
 	report     []map[string]any
 }
@@ -1859,6 +1890,8 @@ func (g *gen) emitStructs() {
 
 func (g *gen) translate(fi *fnInfo) {
 	spec := fi.spec
+	g.curTypes = spec.Types
+	defer func() { g.curTypes = nil }()
 	p := g.pkg(spec.Pkg)
 	fd := p.findFunc(spec.Recv, spec.Func)
 	name := spec.Func
@@ -1931,14 +1964,28 @@ func (g *gen) translate(fi *fnInfo) {
 					l := t.declare(n.Name)
 					params = append(params, fmt.Sprintf("(%s : %s)", l, ty.Lean))
 					fi.params = append(fi.params, ty)
-					if assigned[n.Name] {
+					forced := false
+					for _, mp := range spec.MutParams {
+						if mp == n.Name {
+							forced = true
+						}
+					}
+					if assigned[n.Name] || forced {
 						muts = append(muts, l)
 						mutT[l] = ty.Lean
 					}
 				}
 			}
 		}
-		params = append(params, spec.Extra...)
+		var implicit []string
+		for _, e := range spec.Extra {
+			if strings.HasPrefix(e, "{") {
+				implicit = append(implicit, e)
+			} else {
+				params = append(params, e)
+			}
+		}
+		params = append(implicit, params...)
 		if fd.Type.Results != nil {
 			for _, f := range fd.Type.Results.List {
 				ty := g.goT(p.info.Types[f.Type].Type)
